@@ -741,7 +741,7 @@ func RunAll(bin string, cases []Case) ([]Result, error) {
 		if crashed {
 			closeSess()
 			res = Result{ID: cases[i].ID, Crashed: true}
-		} else if res.Hang {
+		} else if res.Hang || len(res.Leaked) > 0 {
 			closeSess()
 		}
 		results[i] = res
